@@ -87,6 +87,15 @@ def run(ck):
             j.result()
     ck.sample_lines(files[0], 3, skip=2)
     ck.sample_lines(files[-1], 5, skip=6)
+    # the whole register file inside the composed machine: guest programs and host calls (MMIORead/MMIOWrite, DataRead/
+    # DataWrite through the window, the DMAChan0Get* / AHBMGet* helpers) touching timers, ICU, MIU, mailboxes, audio ports,
+    # DMA channel windows and the AHB bridge while the core runs; every register-backed field must be what System.tla says
+    # after every slice and every call (a helper that leaves the DMA channel window elsewhere shows as a changed selection)
+    from props import sys_common
+    ck.build('sys_rec')
+    sfiles = sys_common.record(ck, ck.pick(4, 12), ck.pick(4, 10), tag='mmdma', mode='dma', seedoff=3100)
+    sfiles += sys_common.record(ck, ck.pick(4, 12), ck.pick(4, 10), tag='mmio', mode='io', seedoff=3300)
+    sys_common.validate(ck, sfiles)
     ck.assumptions += [
         'Mmio.tla is a faithful hand transcription of mmio.cpp and the peripheral docs (reviewed by hand); '
         'the binding is demonstrated by mutations of mmio.cpp that the check rejects',
@@ -102,7 +111,9 @@ def run(ck):
 
 def replay(ck, path):
     path = path.split('#')[0]
-    if path.endswith('.ndjson'):
+    if os.path.basename(path).startswith(('mmdma_', 'mmio_')):
+        ck.validate_traces('SysTrace', 'Trace_Sys.cfg', [path], jvm=['-Xss64m'])
+    elif path.endswith('.ndjson'):
         ck.validate_traces('MmioTrace', 'Trace_Mmio.cfg', [path])
     else:
         print(open(path).read()[-4000:])
